@@ -8,27 +8,27 @@ PY = "/venv/bin/python"
 
 CHECKS = {
     "C01": dict(cat="exploration",
-        text="Held on the generated executions only: real GeminiServerProtocol driven by scripted event orders on a virtual clock (L1, incl. the production wiring captured from start_server on hostile capsules) and through both real TLS layers in-process (L2); a response-stream automaton judges every connection (exactly one well-formed header, body only for 2x, closed, nothing after). Handler/middleware outcomes cover 16 exception types (incl. CancelledError, exceptions whose __str__ raises), hostile messages, wrongly typed response fields and message-less refusals.",
+        text="Held on the generated executions only: real GeminiServerProtocol driven by scripted event orders on a virtual clock (L1, incl. the production wiring captured from start_server on hostile capsules) and through both real TLS layers in-process (L2); a response-stream automaton judges every connection (exactly one well-formed header, body only for 2x, closed, nothing after). Handler/middleware outcomes cover 16 exception types (incl. CancelledError, exceptions whose __str__ raises), hostile messages, wrongly typed response fields and message-less refusals. L2 also runs against a pipe of 16 B - 4 KiB whose client reads whatever arrives (what the network has not taken is still owed).",
         note="FakeTransport models CPython 3.12 sslproto transport semantics; reach bounded by the generators (evidence: input_class / outcome / state_tuples).",
         tech="runtime monitoring: response-stream automaton over recorded connection traces (virtual-time protocol simulator + in-process TLS sandwich)"),
     "C02": dict(cat="exploration",
-        text="Held on the generated trees and spellings: StaticFileHandler.handle is called on real directory trees (symlink topologies, prefix-sharing siblings, root via symlink) with traversal spellings aimed at every outside file; unique sentinels in every file decide containment and availability; a live sample goes through start_server.",
+        text="Held on the generated trees and spellings: StaticFileHandler.handle is called on real directory trees (symlink topologies, prefix-sharing siblings, root via symlink) with traversal spellings aimed at every outside file; unique sentinels in every file decide containment and availability; a live sample goes through start_server. Document roots also change under running handlers (entries replaced by outside links and restored), judged against the tree at each request.",
         note="Containment oracle uses os.path.realpath/commonpath; availability only required for symlink-free, UTF-8 named files (literal spelling only for pchar names).",
         tech="runtime monitoring: sentinel-token oracle on responses + audit-hook trail of open/listdir (L0 handler calls, L3 live sample)"),
     "C03": dict(cat="exploration",
-        text="Held on the explored histories: TOFUDatabase histories (exhaustive to depth 4/5) and GeminiClient get/upload/redirect histories against scripted TLS peers whose certificates are swapped (RSA/EC/Ed25519 and DER-tampered certificates the X.509 parser rejects), exhaustive to depth 3/4 over a 12-operation alphabet plus random long histories; after every step outcome and known_hosts are compared with an abstract pin map. Histories include replace-mode imports, export->import restores and calls inside `async with`; a separate scenario keeps 2-4 calls in flight towards an unpinned host whose peer rotates its certificate per connection.",
+        text="Held on the explored histories: TOFUDatabase histories (exhaustive to depth 4/5) and GeminiClient get/upload/redirect histories against scripted TLS peers whose certificates are swapped (RSA/EC/Ed25519 and DER-tampered certificates the X.509 parser rejects), exhaustive to depth 3/4 over a 12-operation alphabet plus random long histories; after every step outcome and known_hosts are compared with an abstract pin map. Histories include replace-mode imports, export->import restores and calls inside `async with`; a separate scenario keeps 2-4 calls in flight towards an unpinned host whose peer rotates its certificate per connection. Pool certificates share subject, issuer and serial number (different keys); peers that answer before the request (end of handshake + response + close_notify in one segment) are included.",
         note="Pin key = (lower-cased host, port) as derived from the URL; TOFU-off runs only check that the store stays untouched.",
         tech="runtime monitoring: step-by-step comparison of real outcomes and the sqlite table with a reference pin-map model over live TLS histories"),
     "C04": dict(cat="exploration",
-        text="Held on the explored chains: real MiddlewareChain over real RateLimiter/AccessControl/CertificateAuth and scripted allow/deny/raise/slow components in every order (1-3 components), gemini and titan requests, reads and disconnects while the chain is pending, both TLS layers; recording proxies, spy handlers, an audit hook and tree snapshots give the per-connection order of chain/handler/filesystem events.",
+        text="Held on the explored chains: real MiddlewareChain over real RateLimiter/AccessControl/CertificateAuth and scripted allow/deny/raise/slow components in every order (1-3 components), gemini and titan requests, reads and disconnects while the chain is pending, both TLS layers; recording proxies, spy handlers, an audit hook and tree snapshots give the per-connection order of chain/handler/filesystem events. A listed certificate, look-alikes (same names and serial, other key), unlisted and no certificate take turns on one process (L1 and PyOpenSSL).",
         note="Expected decision is computed from configuration by the harness; scripted deny responses are well-formed.",
         tech="runtime monitoring: per-connection event-order check (mw_start/mw_end/handler_start/fs events) on the virtual-time simulator and TLS sandwich"),
     "C05": dict(cat="exploration",
-        text="Held on the generated configurations: the production wiring captured from start_server (PyOpenSSL backend) runs in the TLS sandwich with client certificates really presented; rule lists as objects and through TOML; every file/directory is requested in many spellings; the sentinel in the body identifies what was served and the policy is evaluated on its canonical location; live sample on real sockets.",
+        text="Held on the generated configurations: the production wiring captured from start_server (PyOpenSSL backend) runs in the TLS sandwich with client certificates really presented; rule lists as objects and through TOML; every file/directory is requested in many spellings; the sentinel in the body identifies what was served and the policy is evaluated on its canonical location; live sample on real sockets. Rule files are also loaded and wired by the `nauyaca serve` command itself (create_server stubbed); spellings include escapes of escapes and dot segments inside the query.",
         note="Rule prefixes are directory-level; capsules have no symlinks; over-blocking judged only for canonical spellings.",
         tech="runtime monitoring: sentinel-identified resource vs first-matching-rule policy model, real TLS client certificates (L2 sandwich, L3 live)"),
     "C06": dict(cat="exploration",
-        text="Held on the executions produced: every response stream decrypted by a real TLS client (in-process sandwich on both backends with ciphertext segmentations and a bounded pipe towards readers stalling up to 29 virtual seconds through the captured start_server wiring, plus live loopback servers with four reader profiles) is compared byte for byte with header+body and must end in a TLS close. Static files (incl. text with BOM, CRLF, lone CR, Unicode separators, NUL; per-location and server-wide size limits from TOML) are compared with their bytes on disk.",
+        text="Held on the executions produced: every response stream decrypted by a real TLS client (in-process sandwich on both backends with ciphertext segmentations and a bounded pipe towards readers stalling up to 29 virtual seconds through the captured start_server wiring, plus live loopback servers with four reader profiles) is compared byte for byte with header+body and must end in a TLS close. Static files (incl. text with BOM, CRLF, lone CR, Unicode separators, NUL; per-location and server-wide size limits from TOML) are compared with their bytes on disk. Handlers answer 20 and other 2x statuses, immediately or after 45 virtual seconds; a bounded pipe with a client that keeps reading; static files are rewritten (same size, time stamps kept or not) while the server runs.",
         note="Client side is CPython ssl/OpenSSL 3.0; sizes are the listed boundary set plus random ones, not every length; CPython's own 30 s ssl_shutdown_timeout bounds how long a stalled reader can be served.",
         tech="runtime monitoring: byte-exact stream comparison at the client boundary (position-counter bodies) on L2 sandwich and L3 live sockets"),
     "C07": dict(cat="exploration",
@@ -36,19 +36,19 @@ CHECKS = {
         note="Reads after transport.close() are not delivered (sslproto semantics).",
         tech="runtime monitoring: differential comparison against the single-read baseline + handler-entry counting (L1 simulator, L2 sandwich)"),
     "C08": dict(cat="exploration",
-        text="Held on the generated lines: grammar-generated must-accept URIs, systematic corruptions and unconstrained bytes (uploads on and off, delivered in one or several reads) go through the real protocol with spy handler/middleware/upload handler; an independently written three-valued RFC 3986 recogniser decides what must be refused (and with which status) and what must arrive intact.",
+        text="Held on the generated lines: grammar-generated must-accept URIs, systematic corruptions and unconstrained bytes (uploads on and off, delivered in one or several reads) go through the real protocol with spy handler/middleware/upload handler; an independently written three-valued RFC 3986 recogniser decides what must be refused (and with which status) and what must arrive intact. The handler's normalized URL and the URL handed to the middleware chain are parsed back and must name the request's host and port.",
         note="Grey zones (chars outside the URI alphabet, empty userinfo/fragment, ports > 65535, IPvFuture, odd titan params) are undecided and counted.",
         tech="runtime monitoring: independent URI recogniser as oracle over spy-observed handler arguments (L1 simulator)"),
     "C09": dict(cat="exploration",
-        text="Held on the generated configurations and peers: AccessControl built from objects, and TOML -> ServerConfig.from_toml -> get_access_control_config -> start_server wiring -> protocol with fake peer addresses, plus live sockets from 127.0.0.1 and ::1; decisions compared with an integer-arithmetic CIDR model at and around every network boundary.",
+        text="Held on the generated configurations and peers: AccessControl built from objects, and TOML -> ServerConfig.from_toml -> get_access_control_config -> start_server wiring -> protocol with fake peer addresses, plus live sockets from 127.0.0.1 and ::1; decisions compared with an integer-arithmetic CIDR model at and around every network boundary. Lists are also loaded and wired by the `nauyaca serve` command itself (create_server stubbed).",
         note="Empty allow list and IPv4-mapped peers are grey; host-bits-set entries may prevent start-up or be read as the enclosing network.",
         tech="runtime monitoring: decision-by-decision comparison with an integer CIDR reference model (L0 objects, L1 captured wiring, L3 live)"),
     "C10": dict(cat="exploration",
-        text="Held on the explored histories: the real RateLimiter with its clean-up task runs on a virtual-time loop; exhaustive gap sequences for capacity<=2 and random long histories spanning many clean-up ticks are compared step by step with an exact Fraction token bucket without eviction, checked against the window bound capacity+rate*T by an independent O(n) scan, and re-run per address for independence.",
+        text="Held on the explored histories: the real RateLimiter with its clean-up task runs on a virtual-time loop; exhaustive gap sequences for capacity<=2 and random long histories spanning many clean-up ticks are compared step by step with an exact Fraction token bucket without eviction, checked against the window bound capacity+rate*T by an independent O(n) scan, and re-run per address for independence. The limiter is also observed behind both TLS layers as start_server wires them and as the `nauyaca serve` command wires it (file, file silent about limits, no file); address pools contain look-alike texts.",
         note="Time is read only through middleware.time.monotonic (patched to the virtual clock); dyadic rates make float arithmetic exact, other rates use a 1e-9 grey band.",
         tech="runtime monitoring: online comparison with an exact-arithmetic reference bucket + offline window-bound checker on recorded decision histories (virtual clock)"),
     "C11": dict(cat="exploration",
-        text="Held on the explored situations: GeminiClient get/upload/delete against scripted TLS peers in pinned/unpinned/changed/unparsable/redirect-to-changed situations with eager, lazy and late-reading peers; the peer's count of decrypted application bytes after draining to EOF and the client-side order of transport writes versus verify() returns are both monitored. Client configurations: plain TOFU, CA verification + TOFU (private CA that signed both certificates), TOFU with a client certificate; host spelled as address / lower / mixed / upper case; client reuse, `async with`, concurrent calls, store faults.",
+        text="Held on the explored situations: GeminiClient get/upload/delete against scripted TLS peers in pinned/unpinned/changed/unparsable/redirect-to-changed situations with eager, lazy and late-reading peers; the peer's count of decrypted application bytes after draining to EOF and the client-side order of transport writes versus verify() returns are both monitored. Client configurations: plain TOFU, CA verification + TOFU (private CA that signed both certificates), TOFU with a client certificate; host spelled as address / lower / mixed / upper case; client reuse, `async with`, concurrent calls, store faults. Stores reached through relative paths across a chdir, used right after a failed import, holding pins of look-alike neighbours; look-alike certificates (same names and serial); the `nauyaca get` command with a scratch HOME.",
         note="Writes are observed at asyncio.sslproto._SSLProtocolTransport.write.",
         tech="runtime monitoring: peer-side byte counting + client-side event-order monitor (write vs verify_return) on live TLS connections"),
     "C12": dict(cat="fault_enumeration",
@@ -56,27 +56,27 @@ CHECKS = {
         note="Crash points are statement boundaries (SQLite's byte-level commit atomicity is trusted); last_seen excluded.",
         tech="runtime monitoring with fault injection: exhaustive statement-boundary crash/error enumeration, before/after table-dump oracle"),
     "C13": dict(cat="exploration",
-        text="Held on the generated streams: both client protocol classes on a fake transport (all segmentations of short streams, cuts of long ones, close/reset at every prefix length, the 10 MiB cap boundary) and GeminiClient over TLS against peers that close, reset or stall at each stage; results are compared with an independent response-stream parser, and a pending future after connection end is a hang. Declared charsets range over every codec label Python knows (text encodings or not); raw mode (decode_text=False) and 2-3 overlapping calls on one client are included.",
+        text="Held on the generated streams: both client protocol classes on a fake transport (all segmentations of short streams, cuts of long ones, close/reset at every prefix length, the 10 MiB cap boundary) and GeminiClient over TLS against peers that close, reset or stall at each stage; results are compared with an independent response-stream parser, and a pending future after connection end is a hang. Declared charsets range over every codec label Python knows (text encodings or not); raw mode (decode_text=False) and 2-3 overlapping calls on one client are included. Peers that stall before the TLS handshake completes (silent, half a record) on every entry point.",
         note="Grey status tokens and malformed charset parameters are undecided; L3 timeouts are watchdogs, verdicts use event order.",
         tech="runtime monitoring: independent response parser as oracle + future-resolution monitor (L1 virtual loop, L3 live peers)"),
     "C14": dict(cat="fault_enumeration",
-        text="FileUploadHandler (also via ServerConfig.get_upload_handler and through the protocol) on upload trees with symlinks and prefix-sharing siblings; every stored/replaced/deleted upload is re-run with RLIMIT_FSIZE partial writes (0,1,half,size-1) and with an injected ENOSPC/EIO/EACCES at every index of the open/replace/rename/unlink/mkdir call sequence; a byte-exact diff of the directory and its surroundings plus the audit trail must show exactly one authorised change or none.",
+        text="FileUploadHandler (also via ServerConfig.get_upload_handler and through the protocol) on upload trees with symlinks and prefix-sharing siblings; every stored/replaced/deleted upload is re-run with RLIMIT_FSIZE partial writes (0,1,half,size-1) and with an injected ENOSPC/EIO/EACCES at every index of the open/replace/rename/unlink/mkdir call sequence; a byte-exact diff of the directory and its surroundings plus the audit trail must show exactly one authorised change or none. One handler serves the same paths again while the upload tree is rearranged between requests; an accepted request must have changed the file its path denotes at that moment.",
         note="Single fault per request; parent-directory creation tolerated and counted.",
         tech="runtime monitoring with fault injection: tree-diff + audit-trail oracle under enumerated OS-call failpoints and real partial writes"),
     "C15": dict(cat="exploration",
-        text="Held on the explored stalls: every prefix length of representative gemini/titan requests delivered in 1-3 reads then silence (virtual clock: 40 + close at exactly 30 s, never a quiescent loop with an open transport), slow handlers/middleware never cut by the timer, both TLS layers stalled before/inside/after every client handshake flight (TLS 1.2 and 1.3, with and without client certificate), and live sockets with shortened timeouts.",
+        text="Held on the explored stalls: every prefix length of representative gemini/titan requests delivered in 1-3 reads then silence (virtual clock: 40 + close at exactly 30 s, never a quiescent loop with an open transport), slow handlers/middleware never cut by the timer, both TLS layers stalled before/inside/after every client handshake flight (TLS 1.2 and 1.3, with and without client certificate), and live sockets with shortened timeouts. close_notify after an incomplete request with TCP left open; complete requests in many delivery shapes with surplus bytes in the completing read are never answered by the request timer.",
         note="Stdlib handshake bound is CPython's 60 s; after close CPython waits up to 30 s for the peer's close_notify (checked finite).",
         tech="runtime monitoring: virtual-time bounded-progress check (close time, quiescence with open transport) on L1/L2, live sample L3"),
     "C16": dict(cat="exploration",
-        text="Held on the explored graphs: GeminiClient.get with TOFU against three scripted TLS servers implementing redirect graphs (all graphs for N<=2 over 15 target forms, chains/cycles up to length 8, random N<=8) x max_redirects 0..6 x follow on/off; peers' connection logs and a verify() counter are compared with the harness's walk of the graph. Seven fetches in flight on one client (chains at and over the limit, cycle, self-loop) check that each keeps its own count and history.",
+        text="Held on the explored graphs: GeminiClient.get with TOFU against three scripted TLS servers implementing redirect graphs (all graphs for N<=2 over 15 target forms, chains/cycles up to length 8, random N<=8) x max_redirects 0..6 x follow on/off; peers' connection logs and a verify() counter are compared with the harness's walk of the graph. Seven fetches in flight on one client (chains at and over the limit, cycle, self-loop) check that each keeps its own count and history. Endless chains whose every target is derived from the URL just requested; the `nauyaca get` command with --max-redirects / --no-redirects.",
         note="Relative/empty/upper-case-scheme/oversize/malformed targets may yield an error or the unchanged 3x.",
         tech="runtime monitoring: connection-log and verify-call monitors vs reference redirect-graph walk (live TLS peers)"),
     "C17": dict(cat="exploration",
-        text="Held on the generated requests: raw TLS client -> start_server with proxy/static locations loaded from TOML -> scripted upstream and decoy listeners; upstream request lines, decoy logs and audit-hook socket events (getaddrinfo/connect) are checked against the configured upstream and the RFC 3986 split of the client's line with the prefix mapping.",
+        text="Held on the generated requests: raw TLS client -> start_server with proxy/static locations loaded from TOML -> scripted upstream and decoy listeners; upstream request lines, decoy logs and audit-hook socket events (getaddrinfo/connect) are checked against the configured upstream and the RFC 3986 split of the client's line with the prefix mapping. Lines outside the URI alphabet that the server chooses to forward are held to the same mapping.",
         note="Requests outside the must-accept grammar and empty queries are grey.",
         tech="runtime monitoring: audit-hook socket monitor + upstream/decoy connection logs vs mapping oracle (live sockets)"),
     "C18": dict(cat="fault_enumeration",
-        text="Raw TLS client -> start_server proxy (short location timeout for the stall stages, generous ones elsewhere) -> scripted upstream: well-formed responses of every status class, media type and declared charset must arrive byte-identical; each fault stage (refused, TLS failure, close/reset before/mid header, garbage headers, reset mid-body, stalls at each stage, oversize body) must yield exactly one well-formed 43 and a server that keeps serving; redirects to a decoy are relayed, early-disconnecting clients tolerated; 2-4 downstream requests in flight through one location must each get their own relay (or their own 43).",
+        text="Raw TLS client -> start_server proxy (short location timeout for the stall stages, generous ones elsewhere) -> scripted upstream: well-formed responses of every status class, media type and declared charset must arrive byte-identical; each fault stage (refused, TLS failure, close/reset before/mid header, garbage headers, reset mid-body, stalls at each stage, oversize body) must yield exactly one well-formed 43 and a server that keeps serving; redirects to a decoy are relayed, early-disconnecting clients tolerated; 2-4 downstream requests in flight through one location must each get their own relay (or their own 43). Locations from a configuration file (timeout given / omitted) wired by start_server against a silent upstream in virtual time: 43 at the location's timeout.",
         note="A cleanly truncated 2x body cannot be told from a complete one; upstream metas with bare CR/LF or >1024 bytes may be 43 or sanitised.",
         tech="runtime monitoring with fault injection: downstream/upstream byte comparison and response automaton under scripted upstream faults (live sockets)"),
     "C19": dict(cat="exploration",
@@ -84,7 +84,7 @@ CHECKS = {
         note="Host comparison case-insensitive; '' == '/' for paths; empty query == no query.",
         tech="runtime monitoring: round-trip/idempotence oracle against an independent URI recogniser (L0 calls, L3 live client/server)"),
     "C20": dict(cat="exploration",
-        text="Held on the probed cells: real handshakes offering exactly one protocol version (TLS 1.0-1.3, SECLEVEL 0) against all four start_server construction paths and both factory functions with client-cert request on/off; client contexts (TOFU, CA, GeminiClient.get) against peers capped at TLS 1.0/1.1; plaintext and random bytes to every server variant, and (virtual time, both TLS layers) peers that send nothing / a few bytes / partial records and then wait past every timeout - everything ever written to the raw socket is inspected. Each refusal is paired with a control peer proving the old version is otherwise negotiable here.",
+        text="Held on the probed cells: real handshakes offering exactly one protocol version (TLS 1.0-1.3, SECLEVEL 0) against all four start_server construction paths and both factory functions with client-cert request on/off; client contexts (TOFU, CA, GeminiClient.get) against peers capped at TLS 1.0/1.1; plaintext and random bytes to every server variant, and (virtual time, both TLS layers) peers that send nothing / a few bytes / partial records and then wait past every timeout - everything ever written to the raw socket is inspected. Each refusal is paired with a control peer proving the old version is otherwise negotiable here. Certificate / key files that are out of order at start-up (nine kinds): refuse to start or listen with TLS; what the `nauyaca serve` command listens with is probed for clear text and, at security level 0, for the version floor.",
         note="SSLv3 cannot be offered by this interpreter (recorded as unreachable).",
         tech="runtime monitoring: control-validated handshake probing and plaintext probes on live sockets"),
 }
